@@ -8,6 +8,14 @@ from gen import htmlgen
 logging.getLogger('web_monitoring_diff.html_render_diff').setLevel(logging.CRITICAL + 1)
 
 HAND_PAIRS = [
+    # a deleted graphic whose script sits inside an element NAMED template (an SVG element there, nothing inert about it)
+    ('<p>hello</p><svg><template><script>alert(5)</script></template><circle r="1"/></svg>', '<p>hello</p>'),
+    ('<p>hello</p><math><template><style>mi { color: red }</style></template><mi>x</mi></math><p>end</p>', '<p>hello</p><p>end</p>'),
+    # markup quoted as text (no blank in it) against the live element spelled the same way: the readable text differs
+    ('<p>Example:</p><code>&lt;script&gt;alert(1)&lt;/script&gt;</code>', '<p>Example:</p><code><script>alert(1)</script></code>'),
+    ('<p>Example:</p><code><svg></svg></code>', '<p>Example:</p><code>&lt;svg&gt;&lt;/svg&gt;</code>'),
+    ('<div>&lt;textarea&gt;hello&lt;/textarea&gt;</div>', '<div><textarea>hello</textarea></div>'),
+    ('<div><select><option>a</option></select></div>', '<div>&lt;select&gt;&lt;option&gt;a&lt;/option&gt;&lt;/select&gt;</div>'),
     # <noscript> as the first thing of the body (the tag-manager snippet): its content must stay inside it
     ('<html><head><title>t</title></head><body><noscript><p>Enable JS</p></noscript><p>hello world</p></body></html>',
      '<html><head><title>t</title></head><body><noscript><p>Enable JS</p></noscript><p>hello new world</p></body></html>'),
